@@ -720,6 +720,9 @@ const CLASS_CHARS: &[(&str, char)] = &[
     ("x-punct", '?'),
     ("slash", '/'),
     ("comma", ','),
+    ("plus", '+'),
+    ("minus", '-'),
+    ("dot", '.'),
     ("documented-extra-ascii", '#'),
     ("non-swift-ascii", '~'),
     ("backslash", '\\'),
